@@ -85,6 +85,22 @@ def check_packet(ctx, M, kind, wire, rec, verify, label, mutate=True):
             return None
         return name, ptrs
 
+    def ptrs_vs_model(w, v, ptrs, c):
+        """correspondence of the reported pointers with Model/PacketPtrs.v (what C02_reported_* are about)"""
+        m = M([15 if kind == 'interest' else 16, v])
+        impl = [b''.join(bytes(x) for x in (ptrs.signature_covered_part or [])),
+                [] if ptrs.signature_value_buf is None else [bytes(ptrs.signature_value_buf)],
+                b''.join(bytes(x) for x in (ptrs.digest_covered_part or [])),
+                [] if ptrs.digest_value_buf is None else [bytes(ptrs.digest_value_buf)]]
+        if is_err(m):
+            ctx.disagree(f'parse_{kind}.ptrs', 'pointer model rejects, implementation accepts', c, m, impl)
+            return
+        mm = [b''.join(bytes(x) for x in m[1][0]), [bytes(x) for x in m[1][1]],
+              b''.join(bytes(x) for x in m[1][2]), [bytes(x) for x in m[1][3]]]
+        if mm != impl:
+            ctx.disagree(f'parse_{kind}.ptrs', 'reported pointers differ from Model/PacketPtrs.v', c, mm, impl)
+        ctx.stat('ptrs.model-compared')
+
     def verdict(name, ptrs):
         if ptrs.signature_info is None:
             return None
@@ -104,6 +120,7 @@ def check_packet(ctx, M, kind, wire, rec, verify, label, mutate=True):
         ctx.violation(f'parse_{kind}', 'signed-packet-rejected', 'the signed packet does not parse', case)
         return
     name, ptrs = st
+    ptrs_vs_model(wire, v, ptrs, case)
     rep = b''.join(bytes(b) for b in ptrs.signature_covered_part)
     if rep != spec:
         ctx.violation(f'parse_{kind}', 'reported-bytes-not-spec', 'SignaturePtrs.signature_covered_part is not the specified signed portion', case)
@@ -162,6 +179,7 @@ def check_packet(ctx, M, kind, wire, rec, verify, label, mutate=True):
         rep2 = b''.join(bytes(x) for x in ptrs2.signature_covered_part)
         sig2 = bytes(ptrs2.signature_value_buf) if ptrs2.signature_value_buf is not None else None
         c2 = {**case, 'mutant': w2, 'edit': mk}
+        ptrs_vs_model(w2, v2, ptrs2, c2)
         ok2 = verdict(name2, ptrs2)
         # "differs in its signed portion or signature value": read off the mutant by the specification when the
         # mutant is strictly well-formed, otherwise (an overrunning element: C07's known finding) by what is reported
